@@ -21,19 +21,23 @@ TRUSTED = [
     "(slot_addr), proved injective and in bounds, and compared with the addresses the library computes",
     "clock readings are parameters; in the white-box runs the manager's clock cache is faked, in the end-to-end runs the "
     "handlers read the real clocks (CLOCK_MONOTONIC / CLOCK_BOOTTIME / CLOCK_REALTIME)",
-    "the epoll/timerfd delivery of the programmed expiry (modelled as the step SExpire that may happen at any time) and the "
-    "hop of the fired source to its target queue are outside the model; kernel_expired (_dispatch_event_merge_timer, static in "
-    "event_epoll.c) is modelled by reading, not tied",
-    "the guards of the system theorems (resume only when no data is pending, values set before activation, ...) are my "
-    "reading of the callers in src/source.c",
-    "run / pass termination: the theorems about _dispatch_timers_run and _dispatch_event_loop_drain_timers are about calls "
-    "that leave their loops (a boolean of the fuel-indexed model functions); that the model's fuel always suffices is checked "
-    "on every correspondence run, not proved",
+    "kernel side: _dispatch_timeout_program / _dispatch_event_loop_timer_arm/_delete / _dispatch_event_merge_timer of "
+    "src/event/event_epoll.c are modelled (timeout_program, merge_timer_k, kernel_expired) and tied by harness/c11_epoll.c "
+    "(#include of event_epoll.c; only timerfd_create / timerfd_settime / epoll_ctl are recorders); that the kernel delivers "
+    "the expiry of an armed timerfd through epoll is assumed (step SExpire may happen at any time)",
+    "the guards of the system theorems (resume only without the DISARMED marker pending, values set before activation, one "
+    "thread touches the heaps, configuration ranges) are checked on recorded runs of the whole library: harness/c11_trace.c "
+    "runs a public-API scenario in a real multi-threaded process whose event.c is the #included copy, records every entry "
+    "into the timer machinery (DISPATCH_VERIF atomic hook for the accesses of src/source.c), and props/c11_trace.py replays "
+    "the record through the extracted model, comparing every manager pass (fires, kernel calls, timer states); events of "
+    "other threads are ordered by the values the manager's loads observed, a replay cut short by an unresolvable race is "
+    "counted in trace_traces_cut_short_by_a_cross_thread_race",
+    "the hop of the fired source to its target queue (dux_merge_evt -> handler) is outside the model (C15/C01)",
 ]
 ASSUMPTIONS = ["at most 2^30 - 12 timer records (N with 2N + 2 <= capacity of 29 heap segments); index arithmetic is 32 bit",
                "clock values below 2^62 - 1 (Model/Time.v clocks_ok, as for C12) resp. below 2^63 for cached readings",
                "the manager thread runs _dispatch_event_loop_drain_timers whenever the dirty bits are set and when the programmed "
-               "timerfd expires (kernel, scheduler)"]
+               "timerfd expires (kernel, scheduler); within one call the clock readings are the cached ones (constant)"]
 
 U64 = 1 << 64
 I63 = (1 << 63) - 1
@@ -565,7 +569,7 @@ def check_trace(ctx, mexe, mism, fails, dist, samples):
     if exe is None:
         mism.append({"what": "trace harness build failed (white-box include of src/event/event.c in a full process)", "detail": msg[-1500:]})
         return 0
-    runs = 2 if ctx.tier == "quick" else 25
+    runs = 2 if ctx.tier == "quick" else 15
     tot, done = {}, 0
     for _ in range(runs):
         sd = ctx.rng.next() % (1 << 62)
